@@ -95,6 +95,20 @@ pub fn replay(cases: &str, verdicts: &str) {
             let cls = format!("{} bs{}", class, if bs == 1 { "=1" } else if bs < l.max(n) { "<dim" } else if bs == l.max(n) { "=dim" } else { ">dim" });
             v.check(judge_slice(&g), "matmul_blocked", &cls, &json!({"case": c, "bsize": bs}), json!(g.as_ref().map(|r| fjs(r))));
         }
+        // the same buffer as both operands (A A^T, A^T A): the result must not depend on the operands being one object
+        if !bad && sc.is_empty() {
+            let a2 = a.data.to_vec();
+            for (f1, f2) in [(false, true), (true, false)] {
+                let alias = guard(|| matmul(&a.data, &a.data, a.nrows, a.nrows, f1, f2));
+                let apart = guard(|| matmul(&a.data, &a2, a.nrows, a.nrows, f1, f2));
+                v.check(alias.is_some() && alias == apart, "matmul", &format!("aliased operands t{}{} {}", f1 as u8, f2 as u8, shape), &c, json!({"aliased": alias.as_ref().map(|r| fjs(r)), "separate": apart.as_ref().map(|r| fjs(r))}));
+                let alias = guard(|| if f2 { a.dot_t(&a) } else { a.t_dot(&a) });
+                let ac = a.clone();
+                let apart = guard(|| if f2 { a.dot_t(&ac) } else { a.t_dot(&ac) });
+                let same = match (&alias, &apart) { (Some(p), Some(q)) => p.nrows == q.nrows && p.ncols == q.ncols && all_eq(&p.data, &q.data), _ => false };
+                v.check(same, if f2 { "Matrix.dot_t(Matrix)" } else { "Matrix.t_dot(Matrix)" }, &format!("aliased operands {}", shape), &c, json!(alias.as_ref().map(mat_json)));
+            }
+        }
         if !bad {
             let g = guard(|| xtx(&a.data, a.nrows));
             let e = mat_of(&c["xtx"]);
